@@ -26,4 +26,65 @@ def outOptPair (r : Outcome (Option Dec)) : Outcome (Option (Int × Nat)) := (Op
 theorem Dom.fits {d : Dec} (h : Dom d) : fitsI128 d.coeff = true := by
   unfold Dom at h; rw [fitsI128_iff]; omega
 
+/-! ### `Spec.valFit` against the outcomes of a final `checked_*` step -/
+
+theorem valFit_eq (c : Int) (p : Nat) :
+    Spec.valFit c p = if c = I128_MIN then Spec.Exp.valOrOvf c p
+      else if fitsI128 c = true then Spec.Exp.val c p else Spec.Exp.ovf := by
+  have h : (2 : Int) ^ 127 = 170141183460469231731687303715884105728 := by decide
+  unfold Spec.valFit I128_MIN
+  rw [h, spec_fits_eq]
+
+theorem valFit_some (c : Int) (p : Nat) (h : fitsI128 c = true) :
+    Spec.allowedChecked (Spec.valFit c p) (.ok (some (c, p))) = true := by
+  rw [valFit_eq]
+  by_cases hm : c = I128_MIN <;> simp [hm, h, Spec.allowedChecked]
+
+theorem valFit_none (c : Int) (p : Nat) (h : fitsI128 c = false) :
+    Spec.allowedChecked (Spec.valFit c p) (.ok none) = true := by
+  rw [valFit_eq]
+  by_cases hm : c = I128_MIN <;> simp [hm, h, Spec.allowedChecked]
+
+theorem valFit_some_op (c : Int) (p : Nat) (h : fitsI128 c = true) :
+    Spec.allowedOp (Spec.valFit c p) (.ok (c, p)) = true := by
+  rw [valFit_eq]
+  by_cases hm : c = I128_MIN <;> simp [hm, h, Spec.allowedOp]
+
+theorem valFit_ovf_op (c : Int) (p : Nat) (h : fitsI128 c = false) :
+    Spec.allowedOp (Spec.valFit c p) (.panic .overflow) = true := by
+  rw [valFit_eq]
+  by_cases hm : c = I128_MIN <;> simp [hm, h, Spec.allowedOp, Spec.isOvfPanic]
+
+/-- the operator idiom `if let Some(r) = checked(..) { r } else { panic!("{}", InternalOverflow) }` -/
+def panicOnNone : Outcome (Option Dec) → Outcome Dec
+  | .ok (some d) => .ok d
+  | .ok none => .panic .overflow
+  | .panic k => .panic k
+
+theorem bind_panicOnNone (r : Outcome (Option Dec)) :
+    (r >>= fun o => match o with
+      | some d => (pure d : Outcome Dec)
+      | none => Outcome.panic PanicKind.overflow) = panicOnNone r := by
+  cases r with
+  | panic k => rfl
+  | ok o => cases o <;> rfl
+
+/-- from a checked result to the operator that panics on `None` -/
+theorem allowedOp_of_checked (e : Spec.Exp) (r : Outcome (Option Dec))
+    (h : Spec.allowedChecked e (outOptPair r) = true) (hn : e ≠ .divzero) (hnn : e ≠ .none) (hnf : e ≠ .nfrac) :
+    Spec.allowedOp e (outPair (panicOnNone r)) = true := by
+  cases r with
+  | panic k => cases e <;> simp [Spec.allowedChecked, Spec.allowedOp, panicOnNone] at h hn hnn hnf ⊢
+  | ok o =>
+    cases o with
+    | none => cases e <;> simp [Spec.allowedChecked, Spec.allowedOp, Spec.isOvfPanic, panicOnNone] at h hn hnn hnf ⊢
+    | some v => cases e <;> simp [Spec.allowedChecked, Spec.allowedOp, panicOnNone] at h hn hnn hnf ⊢ <;> exact h
+
+theorem valFit_shape (c : Int) (p : Nat) :
+    Spec.valFit c p ≠ .divzero ∧ Spec.valFit c p ≠ .none ∧ Spec.valFit c p ≠ .nfrac := by
+  rw [valFit_eq]
+  by_cases h1 : c = I128_MIN
+  · simp [h1]
+  · by_cases h2 : fitsI128 c = true <;> simp [h1, h2]
+
 end Fpdec
